@@ -53,7 +53,7 @@ def row_key(draw, n):
 
 TABLE_COLS = {
     "chroms": ["name", "length"],
-    "bins": ["chrom", "start", "end", "gc", "mask"],
+    "bins": ["chrom", "start", "end", "gc", "mask", "cls"],
     "pixels": ["bin1_id", "bin2_id", "count", "x"],
 }
 
@@ -78,10 +78,20 @@ def selector_cases(draw):
     return {"part": "selector", **c, "table": table, "range": [lo, hi], "key": key, "cols": cols}
 
 
+CAT_LEVELS = ["low", "mid", "high"]
+
+
+def _cat_values(n):
+    """A categorical extra bin column with missing entries (stored as an HDF5 enum with code -1)."""
+    return [None if k % 4 == 1 else CAT_LEVELS[(k * 5) % 3] for k in range(n)]
+
+
 def _gc_mask(n):
+    import pandas as pd
+
     gc = np.array([((7 * k) % 16) / 16.0 if k % 5 else np.nan for k in range(n)], dtype="float64")
     mask = np.array([k % 3 for k in range(n)], dtype="int8")
-    return {"gc": gc, "mask": mask}
+    return {"gc": gc, "mask": mask, "cls": pd.Categorical(_cat_values(n), categories=CAT_LEVELS)}
 
 
 def make_cooler(ctx, c):
@@ -120,7 +130,9 @@ def _model_table(c, table):
     n = len(br)
     if table == "bins":
         ex = _gc_mask(n)
+        # extra columns come back in the (alphabetical) order in which HDF5 lists them
         return {"chrom": [b[0] for b in br], "start": [b[1] for b in br], "end": [b[2] for b in br],
+                "cls": [float("nan") if v is None else v for v in _cat_values(n)],
                 "gc": ex["gc"].tolist(), "mask": ex["mask"].tolist()}
     if table == "pixels":
         return {"bin1_id": [r[0] for r in rows], "bin2_id": [r[1] for r in rows],
@@ -133,7 +145,7 @@ def _model_table(c, table):
 
 
 def _col_eq(series, want):
-    got = [str(v) if isinstance(w, str) else v for v, w in zip(series.tolist(), want)]
+    got = [str(v) if (isinstance(w, str) and isinstance(v, str)) else v for v, w in zip(series.tolist(), want)]
     if len(got) != len(want):
         return False
     for g, w in zip(got, want):
@@ -230,7 +242,7 @@ def annotate_cases(draw):
         part = [a, b]
     else:
         part = None
-    bcols = draw(st.lists(st.sampled_from(["chrom", "start", "end", "gc", "mask"]), min_size=1, max_size=5, unique=True)) \
+    bcols = draw(st.lists(st.sampled_from(["chrom", "start", "end", "gc", "mask", "cls"]), min_size=1, max_size=6, unique=True)) \
         if form == "selector-cols" else None
     index_kind = draw(st.sampled_from(["range", "shuffled", "offset", "strings"]))
     return {"part": "annotate", **c, "ids": [list(t) for t in ids], "which": which, "form": form, "partial": part,
@@ -274,10 +286,15 @@ def check_annotate(case, ctx: Ctx):
         else:
             a, b = case["partial"]
             bins = bsel[a:b]
+        px_cols_before = list(px.columns)
         out = call(f"annotate(pixels[{m}], bins as {case['form']}, replace={case['replace']})",
                    cooler.annotate, px, bins, replace=case["replace"])
+        # the caller's pixel frame is an input: it keeps its columns, so that it can be annotated again
+        check(list(px.columns) == px_cols_before, f"annotate(replace={case['replace']}) removed columns {sorted(set(px_cols_before) - set(px.columns))} from the caller's pixel frame")
+        again = call("annotate (same pixel frame, second time)", cooler.annotate, px, bins, replace=case["replace"])
+        check(list(again.columns) == list(out.columns) and len(again) == len(out), "annotating the same pixel frame a second time gives other columns")
         full = _model_table(case, "bins")
-        bcols = case["bcols"] or ["chrom", "start", "end", "gc", "mask"]
+        bcols = case["bcols"] or ["chrom", "start", "end", "cls", "gc", "mask"]
         check(len(out) == m, f"annotate returned {len(out)} rows for {m} pixels")
         check(out.index.tolist() == index, "annotate does not keep the pixels' index")
         check(out["count"].tolist() == data["count"].tolist(), "annotate reorders the pixels")
